@@ -132,16 +132,15 @@ class CachedShapePreProcessor(CachedAmpPreProcessor):
         old_cached_amp = list(x["cached_amp"])
         dec = self.decay_group
 
-        used_chains = dec.chains_idx
-        dec.set_used_chains(cached_shape_idx)
-        with self.amp.temp_total_gls_one():
-            pv = build_params_vector(dec, x)
+        with dec.keep_used_chains():
+            dec.set_used_chains(cached_shape_idx)
+            with self.amp.temp_total_gls_one():
+                pv = build_params_vector(dec, x)
         hij = []
         for k, i in zip(cached_shape_idx, pv):
             tmp = old_cached_amp[k]
             a = tf.reshape(i, [-1, i.shape[1]] + [1] * (len(tmp[0].shape) - 1))
             old_cached_amp[k] = a * tf.stack(tmp, axis=1)
-        dec.set_used_chains(used_chains)
         x["cached_amp"] = list_to_tuple(old_cached_amp)
         return x
 
